@@ -192,6 +192,39 @@ fn main() {
 		}
 		return;
 	}
+	if args.first().map(|s| s.as_str()) == Some("frag") {
+		// `frag JSON [INDEX]`: get_fragment(i) for i = 0..total+2 (and INDEX), traverse() and volume() of the real value
+		use json_syntax::{FragmentRef, Parse, Value};
+		std::panic::set_hook(Box::new(|_| {}));
+		let (v, _) = Value::parse_str(&args[1]).unwrap();
+		use json_syntax::Print;
+		let kind = |f: &FragmentRef| match f {
+			FragmentRef::Value(v) => format!("V{}", v.compact_print()),
+			FragmentRef::Entry(e) => format!("E{}", e.key.as_str()),
+			FragmentRef::Key(k) => format!("K{}", k.as_str()),
+		};
+		let r = std::panic::catch_unwind(std::panic::AssertUnwindSafe(|| {
+			let total = v.traverse().count();
+			let mut idx: Vec<usize> = (0..total + 3).collect();
+			if let Some(i) = args.get(2) {
+				idx.push(i.parse().unwrap());
+			}
+			let g: Vec<String> = idx
+				.iter()
+				.map(|i| match v.get_fragment(*i) {
+					Ok(f) => format!("{}={}", i, kind(&f)),
+					Err(e) => format!("{}=Err{}", i, e),
+				})
+				.collect();
+			let t: Vec<String> = v.traverse().map(|(i, f)| format!("{}={}", i, kind(&f))).collect();
+			format!("G {} T {} N {}", g.join(" "), t.join(" "), v.volume())
+		}));
+		match r {
+			Ok(l) => println!("{}", l),
+			Err(_) => println!("PANIC"),
+		}
+		return;
+	}
 	if args.first().map(|s| s.as_str()) == Some("convert") {
 		// `convert DEPTH JSON`: parses [[0],JSON] with the real parser (JSON at offset 3) and prints the real
 		// Vec::<bool> (DEPTH 1) or Vec::<Vec<bool>> (DEPTH 2) ::try_from_json_at(V, code map, 3)
